@@ -2,7 +2,7 @@
 # confirm_seed.sh <id> <tag> <pkgdir> <runpattern>: confirms a seeded change in its scratch worktree /tmp/wt_<id>_<tag>
 # (demo fails with the patch, passes without; affected package tests unchanged), stores it under /verif/seeded/<id>-<tag>/,
 # and removes the worktree.
-set -u
+set -u; SEED_FLAGS=${SEED_FLAGS:-}
 id=$1; tag=$2; pkg=$3; pat=$4
 export GOFLAGS=-mod=mod GOPROXY=off GOSUMDB=off GOTOOLCHAIN=local
 wt=/tmp/wt_${id}_${tag}; out=/tmp/out_${id}_${tag}; dst=/verif/seeded/${id}-${tag}
@@ -11,9 +11,9 @@ git checkout -q -- . 2>/dev/null; find . -name zz_verif_contracts.go -delete
 git apply $out/patch.diff || { echo "patch does not apply"; exit 2; }
 go build ./... || { echo "does not build"; exit 2; }
 cp $out/demo_test.go $pkg/zz_seed_demo_test.go
-go test -count=1 -run "$pat" ./$pkg/ > /tmp/seed_with.txt 2>&1; with=$?
+go test -count=1 $SEED_FLAGS -run "$pat" ./$pkg/ > /tmp/seed_with.txt 2>&1; with=$?
 git apply -R $out/patch.diff
-go test -count=1 -run "$pat" ./$pkg/ > /tmp/seed_without.txt 2>&1; without=$?
+go test -count=1 $SEED_FLAGS -run "$pat" ./$pkg/ > /tmp/seed_without.txt 2>&1; without=$?
 rm -f $pkg/zz_seed_demo_test.go
 echo "demo with patch: exit $with ; without patch: exit $without"
 [ $with -ne 0 ] && [ $without -eq 0 ] || { echo "NOT CONFIRMED"; exit 1; }
